@@ -317,6 +317,10 @@ def run(ctx):
     if not full_done:
         res.add(Finding('C15', 'C15.e', 'R-ORDER', save.file, save.qualname, save.node.lineno, 'save writes both objects',
                         'no normal path of save performs both puts directly and in order (full object, then %s)' % disc))
+    # ---- C15.f the read-only / transient switches are stored as given
+    from . import common
+    cf2 = res.clause('C15.g', 'R-PROV', 'read_only and transient are stored as the caller gave them', floor=2)
+    common.ctor_params_clause(ctx, res, cf2, 'C15', 'C15.g', 'S3TapeCassette', params=['read_only', 'transient'])
     return res
 
 
